@@ -35,6 +35,7 @@ STREAM = ('sync-tcp', 'sync-serial', 'aio-tcp', 'tw-tcp')
 DATAGRAM = ('sync-udp', 'aio-udp', 'tw-udp')
 ALL = STREAM + DATAGRAM
 PEER = ('10.9.8.7', 4321)
+PEERS = [PEER, ('10.9.8.9', 5555), ('10.1.1.1', 502)]      # opts['peers'][i] = index of the sender of datagram i
 
 
 class Result(object):
@@ -69,6 +70,8 @@ class FakeSock(object):
         if self.calls > len(self.res.per_read) + 50 + len(self.reads):
             self.res.stuck = True
             raise KeyboardInterrupt('handler spins')
+        while self.reads and callable(self.reads[0]):
+            self.reads.pop(0)()               # run-time event between two reads (e.g. reconfiguration of the context)
         if self.reads:
             self.res.fed += 1
             self.res.per_read.append(b'')
@@ -157,12 +160,17 @@ def _sync_serial(res, framing, context, reads, opts):
 
 def _sync_udp(res, framing, context, reads, opts):
     srv = owner(framing, context, **opts)
+    peers, k = opts.get('peers') or [], -1
     for dg in reads:
+        if callable(dg):
+            dg()
+            continue
+        k += 1
         sock = FakeSock([], res)
         res.fed += 1
         res.per_read.append(b'')
         try:
-            sy.ModbusDisconnectedRequestHandler((dg, sock), PEER, srv)
+            sy.ModbusDisconnectedRequestHandler((dg, sock), PEERS[peers[k]] if k < len(peers) else PEER, srv)
         except Exception as e:  # noqa
             res.escaped.append(e)
 
@@ -207,7 +215,12 @@ async def _aio_tcp(res, framing, context, reads, opts):
     h = aio.ModbusConnectedRequestHandler(srv)
     tr = FakeTransport(res)
     h.connection_made(tr)
+    burst = list(opts.get('burst') or [])       # group sizes: that many reads are queued before the handler task gets to run
+    pending = 0
     for chunk in reads:
+        if callable(chunk):
+            chunk()
+            continue
         if res.closed:
             break                      # transport.close() was called: the loop would deliver no more data
         res.fed += 1
@@ -216,6 +229,11 @@ async def _aio_tcp(res, framing, context, reads, opts):
             h.data_received(chunk)
         except Exception as e:  # noqa
             res.escaped.append(e)
+        if pending == 0 and burst:
+            pending = burst.pop(0)
+        pending = max(0, pending - 1)
+        if pending:
+            continue
         if not await _drain(h):
             res.stuck = True
             break
@@ -236,13 +254,24 @@ async def _aio_udp(res, framing, context, reads, opts):
     h = aio.ModbusDisconnectedRequestHandler(srv)
     tr = FakeTransport(res)
     h.connection_made(tr)
+    burst = list(opts.get('burst') or [])
+    peers, k, pending = opts.get('peers') or [], -1, 0
     for dg in reads:
+        if callable(dg):
+            dg()
+            continue
+        k += 1
         res.fed += 1
         res.per_read.append(b'')
         try:
-            h.datagram_received(dg, PEER)
+            h.datagram_received(dg, PEERS[peers[k]] if k < len(peers) else PEER)
         except Exception as e:  # noqa
             res.escaped.append(e)
+        if pending == 0 and burst:
+            pending = burst.pop(0)
+        pending = max(0, pending - 1)
+        if pending:
+            continue
         if not await _drain(h):
             res.stuck = True
             break
@@ -265,6 +294,9 @@ def _tw_tcp(res, framing, context, reads, opts):
     p.makeConnection(tr)
     seen = 0
     for chunk in reads:
+        if callable(chunk):
+            chunk()
+            continue
         res.fed += 1
         res.per_read.append(b'')
         try:
@@ -290,12 +322,17 @@ def _tw_udp(res, framing, context, reads, opts):
     p = tw().ModbusUdpProtocol(context, framer=FRAMER[framing], ignore_missing_slaves=opts.get('ignore_missing_slaves', False))
     tr = proto_helpers.FakeDatagramTransport()
     p.makeConnection(tr)
+    peers, k = opts.get('peers') or [], -1
     for dg in reads:
+        if callable(dg):
+            dg()
+            continue
+        k += 1
         res.fed += 1
         res.per_read.append(b'')
         n = len(tr.written)
         try:
-            p.datagramReceived(dg, PEER)
+            p.datagramReceived(dg, PEERS[peers[k]] if k < len(peers) else PEER)
         except Exception as e:  # noqa
             # the reactor logs the error; the port keeps listening
             res.escaped.append(e)
